@@ -239,3 +239,47 @@ Proof.
   split; [intros y [<-|[<-|[<-|[]]]]; reflexivity|]. simpl. repeat constructor; simpl; intuition discriminate.
 Qed.
 Print Assumptions C13_straightline_nonvacuous.
+
+(* END TO END for single-loop kernels  pre ; scf.for { body } ; post  (straight-line regions, the
+   shape of a tiled kernel; DM/compute dependencies local to a region): the output of the pass has
+   every conflicting pair guarded — inside the loop body by the barrier before the consumer AND, for
+   the back-edge, by the barrier before the scf.yield — hence on every path (every trip count) every
+   phase is conflict free and every interleaving of the cores computes the memory of the program order *)
+Theorem C13_loop_pass_all_guarded :
+  forall p0 q, lp_wf p0 q -> lp_local q -> all_guarded (lp_tree (barriers (lp_flat q)) q) = true.
+Proof. exact loop_pass_all_guarded. Qed.
+Print Assumptions C13_loop_pass_all_guarded.
+
+Theorem C13_loop_pass_drf :
+  forall p0 q, lp_wf p0 q -> lp_local q ->
+  forall o ss m,
+  let prog := lp_tree (barriers (lp_flat q)) q in
+  Forall2 schedule_of (map (filter specific) (split_phases [] (rrunl o prog []))) ss ->
+  meq (exec (concat ss) m) (exec (concat (map (filter specific) (split_phases [] (rrunl o prog [])))) m).
+Proof.
+  intros p0 q Hw Hl o ss m prog H. apply all_guarded_any_interleaving; [|exact H].
+  apply (loop_pass_all_guarded p0 q Hw Hl).
+Qed.
+Print Assumptions C13_loop_pass_drf.
+
+(* non-vacuity: for { copy -> %1 ; generic %1 -> %2 } : barrier before the generic and before the yield *)
+Example C13_loop_nonvacuous :
+  let q := mkLoop [] (mkInfo 2 BOther [] [] 0 false 0)
+                  [mkInfo 3 BDM [100; 101] [] 2 true 6; mkInfo 4 BCompute [101; 102] [] 2 true 6]
+                  (mkInfo 6 BOther [] [] 2 true 6) [] in
+  lp_wf 0 q /\ lp_local q /\ barriers (lp_flat q) = [6; 4] /\
+  lp_tree (barriers (lp_flat q)) q =
+    [RFor 2 [RLeaf 3 1 false [] [100; 101]; RLeaf 1000004 (-1) true [] []; RLeaf 4 0 false [] [101; 102];
+             RLeaf 1000006 (-1) true [] []]].
+Proof.
+  cbv zeta. split; [|split; [|split; vm_compute; reflexivity]].
+  - unfold lp_wf. simpl. split; [|split; [|split; [|repeat split; reflexivity]]].
+    + intros y H. destruct H as [H|[H|H]]; [destruct H | subst; reflexivity | destruct H].
+    + intros y H. destruct H as [[H|[H|[]]]|H]; subst; repeat split; reflexivity.
+    + repeat constructor; simpl; intuition discriminate.
+  - intros x u Hx Hu Hms Hc. simpl in Hx, Hu. right. left.
+    destruct Hx as [<-|[<-|[<-|[<-|[]]]]]; destruct Hu as [<-|[<-|[<-|[<-|[]]]]];
+      vm_compute in Hms; try discriminate; vm_compute in Hc; try (exfalso; apply Hc; reflexivity);
+      simpl; tauto.
+Qed.
+Print Assumptions C13_loop_nonvacuous.
